@@ -666,7 +666,7 @@ func (w *World) stringValueSwitch(P string, r *Roles) {
 
 // minPosHelper: fn(NodeSet) Cursor that loops over the set and keeps the candidate with smaller Pos().
 func (w *World) isMinPosHelper(fn *ssa.Function, r *Roles) (bool, string) {
-	if fn == nil || len(fn.Params) != 1 || fn.Signature.Results().Len() != 1 {
+	if fn == nil || len(fn.Params) != 1 || fn.Signature.Results().Len() < 1 || fn.Signature.Results().Len() > 2 {
 		return false, "not a selector function"
 	}
 	loops := loopBlocks(fn)
@@ -758,7 +758,7 @@ func (w *World) isMinPosHelper(fn *ssa.Function, r *Roles) (bool, string) {
 		}
 		// the running best must be what is returned
 		allInstrs(fn, func(in2 ssa.Instruction) {
-			if ret, ok := in2.(*ssa.Return); ok && len(ret.Results) == 1 && isBest(ret.Results[0], map[ssa.Value]bool{}) {
+			if ret, ok := in2.(*ssa.Return); ok && len(ret.Results) >= 1 && len(ret.Results) <= 2 && isBest(ret.Results[0], map[ssa.Value]bool{}) {
 				found = true
 			}
 		})
@@ -781,6 +781,9 @@ func (w *World) firstNodeRule(P string, f *Facts, r *Roles) {
 			}
 			n++
 			arg := c.Call.Args[0]
+			if ex, isEx := arg.(*ssa.Extract); isEx && ex.Index == 0 {
+				arg = ex.Tuple // (first node, found) handed back by the search
+			}
 			ok2, why := false, "the node whose string-value is taken is "+describe(arg)
 			if ac, isCall := arg.(*ssa.Call); isCall {
 				ok2, why = w.isMinPosHelper(staticCallee(ac), r)
@@ -816,6 +819,9 @@ func (w *World) firstNodeRule(P string, f *Facts, r *Roles) {
 						return
 					}
 					recv := c.Call.Value
+					if ex, isEx := recv.(*ssa.Extract); isEx && ex.Index == 0 {
+						recv = ex.Tuple // (first node, found) handed back by the search
+					}
 					ok2, why := false, "the node whose name is taken is "+describe(recv)
 					if p, isParam := recv.(*ssa.Parameter); isParam {
 						// a helper that is handed the node: what every caller passes
